@@ -36,7 +36,10 @@ def e2(rnd, count, big):
                     parts += [s, u, rnd.randint(0, u)]
                 if all(parts[i + 1] == parts[i + 2] for i in range(0, len(parts), 3)):
                     parts[1], parts[2] = parts[0], 0
-                sc.append('%s %d %d %s' % (op, k, nc, ' '.join(map(str, parts))))
+                act = rnd.randint(0, nc - 1)
+                if all(parts[3 * i + 1] == parts[3 * i + 2] for i in range(act, nc)):
+                    act = 0
+                sc.append('%s %d %d %d %s' % (op, k, act, nc, ' '.join(map(str, parts))))
             else:
                 n = rnd.choice([1, 2, 100, 127, 128, 255, 256, rnd.randint(1, min(big, 2000))])
                 pl = [(i + 1) % 256 for i in range(n)]
